@@ -204,6 +204,13 @@ def rule_driver_loops(ctx):
                             exits_ok = True
                         if cmp_state:
                             exits_ok = True
+                    elif is_state and v in (idx.get("None"), idx.get("Maximal")):
+                        # the arm sets a flag that a later `if` turns into the exit (`let go_on = match state {..}; if !go_on { break }`)
+                        from ..flow import reachable_with_const_bools
+
+                        rb = reachable_with_const_bools(b, tb, avoid={sw.bb})
+                        if head not in rb and any(x not in blocks for x in rb):
+                            exits_ok = True
             r.check(exits_ok, b.id + "|exit", "no-exit-on-none", "the loop leaves when the computer reports None / Maximal", "the driving loop has no exit on the computer's terminal state", s.loc())
     r.floor(n, 4, "loops driving a MaximalExtensionComputer")
     # CO / ST call structure
